@@ -1258,16 +1258,40 @@ Proof.
 Qed.
 
 (** the codon loop of old Sequence.get_translation on canonical codons *)
+Definition res_Z_eqb (r1 r2 : res Z) : bool :=
+  match r1, r2 with
+  | Ok a, Ok b => a =? b
+  | Err a, Err b => a =? b
+  | _, _ => false
+  end.
+Lemma res_Z_eqb_sound r1 r2 : res_Z_eqb r1 r2 = true -> r1 = r2.
+Proof. destruct r1, r2; cbn; try discriminate; intros H; f_equal; lia. Qed.
+
+Definition bools2 : list (bool * bool) := [(false, false); (false, true); (true, false); (true, true)].
+Lemma In_bools2 a b : In (a, b) bools2.
+Proof. destruct a, b; cbn; tauto. Qed.
+
+(** a codon of bases in the codon loop of old Sequence.get_translation: every code x 64 codons x
+    (incomplete_ok, include_stop) *)
+Definition old_codon_canon_check (e : Z * list Z * list Z) : bool :=
+  forallb (fun w =>
+    forallb (fun oi : bool * bool =>
+      let x := spec_lookup (ncbi_tbl (fst (fst e))) w in
+      res_Z_eqb (old_codon (snd (fst e)) (fst oi) (snd oi) w)
+                (if (x =? star) && negb (snd oi) then Err E_Alpha else Ok x)) bools2) (product3 bases).
+Lemma old_codon_canon_checked : forallb old_codon_canon_check new_codes = true.
+Proof. vm_compute. reflexivity. Qed.
+
 Lemma old_codon_canon id aa st ok inc a b c :
   In (id, aa, st) new_codes -> canonical a -> canonical b -> canonical c ->
   old_codon aa ok inc [a; b; c] =
   (let x := spec_lookup (ncbi_tbl id) [a; b; c] in if (x =? star) && negb inc then Err E_Alpha else Ok x).
 Proof.
-  intros Hin Ha Hb Hc. unfold old_codon.
-  assert (Hm : forallb (fun c0 => memZ c0 (ch_U :: old_bases)) [a; b; c] = true).
-  { rewrite (proj1 old_bases_lemma). rewrite forallb_forall. intros x Hx. apply memZ_In. right.
-    cbn in Hx. destruct Hx as [<-|[<-|[<-|[]]]]; assumption. }
-  rewrite Hm, (getitem_spec_lemma Old id aa st a b c Hin Ha Hb Hc). reflexivity.
+  intros Hin Ha Hb Hc. pose proof old_codon_canon_checked as H. rewrite forallb_forall in H.
+  specialize (H _ Hin). unfold old_codon_canon_check in H. cbn [fst snd] in H. rewrite forallb_forall in H.
+  specialize (H [a; b; c] (In_product3 _ a b c Ha Hb Hc)). rewrite forallb_forall in H.
+  specialize (H (ok, inc) (In_bools2 ok inc)). cbn [fst snd] in H. cbv zeta in H |- *.
+  apply res_Z_eqb_sound, H.
 Qed.
 
 Lemma old_loop_canon id aa st ok inc l :
